@@ -77,7 +77,7 @@ func FuncName(fn *ssa.Function) string {
 		return "<nil>"
 	}
 	// instantiations of generics: use origin
-	if o := fn.Origin(); o != nil {
+	if o := fn.Origin(); o != nil && !load.AliasNamedRecv(fn) {
 		fn = o
 	}
 	if a, ok := load.FuncAlias[fn]; ok {
@@ -118,11 +118,9 @@ func typeName(t types.Type) string {
 	if n, ok := t.(*types.Named); ok {
 		obj := n.Obj()
 		if obj.Pkg() != nil {
-			full := obj.Pkg().Path() + "." + obj.Name()
-			if a, ok := load.TypeAlias[full]; ok {
-				return a // a struct type recognised as renamed is seen under the name the rule tables use
-			}
-			return full
+			// a struct type recognised as renamed is seen under the name the rule tables use, an instance of a
+			// generic type under the alias name it is declared with
+			return load.CanonTypeName(n)
 		}
 		return obj.Name()
 	}
